@@ -154,3 +154,80 @@ func VerifHarness_C03_O3b() { verifMapOrder("perm", verifPerms()); VerifHarness_
 func VerifHarness_C03_O3c() { verifMapOrder("perm", 6); VerifHarness_C01_O2a() }
 func VerifHarness_C03_O3d() { verifMapOrder("perm", 6); VerifHarness_C18_O2() }
 func VerifHarness_C03_O3e() { verifMapOrder("perm", 6); VerifHarness_C01_O3() }
+
+// O4 — batching independence on a family of small DAGs: for each of four fixed
+// 8-event DAGs over three creators (found by random search; one of them exposes
+// the known finding), the events are inserted in the same order into two
+// hashgraphs.  The reference runs a consensus pass after every insert; the
+// other runs a pass after insert i iff a SYMBOLIC schedule bit says so (all 2^8
+// schedules), plus a final pass.  Round and witness flag of every event, and
+// the number of delivered blocks, must coincide.
+type verifDagEv struct{ creator, index, sp, op int }
+
+var verifBatchDAGs = [][]verifDagEv{
+	// dag0: consensus output DEPENDS on the schedule on the unchanged tree (known finding)
+	{{0, 0, -1, -1}, {2, 0, -1, 0}, {1, 0, -1, 1}, {0, 1, 0, 2}, {0, 2, 3, 2}, {2, 1, 1, 4}, {2, 2, 5, -1}, {1, 1, 2, 6}},
+	{{0, 0, -1, -1}, {1, 0, -1, 0}, {1, 1, 1, 0}, {2, 0, -1, -1}, {1, 2, 2, -1}, {2, 1, 3, 4}, {0, 1, 0, 5}, {1, 3, 4, 6}},
+	{{2, 0, -1, -1}, {0, 0, -1, 0}, {0, 1, 1, -1}, {1, 0, -1, 2}, {2, 1, 0, 3}, {2, 2, 4, 2}, {0, 2, 2, 3}, {2, 3, 5, 6}},
+	{{1, 0, -1, -1}, {2, 0, -1, 0}, {0, 0, -1, 1}, {2, 1, 1, 2}, {2, 2, 3, 0}, {1, 1, 0, -1}, {1, 2, 5, 2}, {2, 3, 4, 6}},
+}
+
+func verifRunBatched(dag []verifDagEv, passAfter []bool) (rounds []int, wit []bool, blocks int) {
+	vn := verifNewNet(3, 100)
+	h := vn.h
+	pass := func() {
+		h.DivideRounds()
+		h.DecideFame()
+		h.DecideRoundReceived()
+		h.ProcessDecidedRounds()
+	}
+	hashes := make([]string, len(dag))
+	for i, e := range dag {
+		sp, op := "", ""
+		if e.sp >= 0 {
+			sp = hashes[e.sp]
+		}
+		if e.op >= 0 {
+			op = hashes[e.op]
+		}
+		ev := vn.mkEvent(e.creator, sp, op, e.index, [][]byte{[]byte{byte(i)}})
+		if err := vn.insert(ev); err != nil {
+			panic(err)
+		}
+		hashes[i] = ev.Hex()
+		if passAfter[i] {
+			pass()
+		}
+	}
+	pass()
+	for i := range dag {
+		r, _ := h.round(hashes[i])
+		w, _ := h.witness(hashes[i])
+		rounds = append(rounds, r)
+		wit = append(wit, w)
+	}
+	return rounds, wit, len(vn.blocks)
+}
+
+func VerifHarness_C03_O4() {
+	k := verifChoice("dag", len(verifBatchDAGs))
+	dag := verifBatchDAGs[k]
+	all := make([]bool, len(dag))
+	sched := make([]bool, len(dag))
+	for i := range dag {
+		all[i] = true
+		if verifNondetBool(fmt.Sprintf("passAfter%d", i)) {
+			sched[i] = true
+		}
+	}
+	refR, refW, refB := verifRunBatched(dag, all)
+	gotR, gotW, gotB := verifRunBatched(dag, sched)
+	same := refB == gotB
+	for i := range dag {
+		if refR[i] != gotR[i] || refW[i] != gotW[i] {
+			same = false
+		}
+	}
+	verifAssert(fmt.Sprintf("consensus-output-independent-of-batching/dag%d", k), same)
+	verifReach("end")
+}
